@@ -27,8 +27,8 @@ type File struct {
 	Payload   []byte
 	// field offsets for the metadata-corruption fault
 	URLLenOff, SigLenOff, HdrLenOff int
-	SigOff, HdrOff, PayloadOff     int
-	HeaderBytes                    []byte
+	SigOff, HdrOff, PayloadOff      int
+	HeaderBytes                     []byte
 }
 
 func be(b []byte) int {
@@ -275,20 +275,20 @@ func BytesOf(raw string) ([]byte, bool) {
 
 // Policy inputs of one exchange whose signature and payload are honest.
 type Policy struct {
-	Version       string
-	URLScheme     string // request URL
-	URLHost       string // host[:port] exactly as written
-	ValidityScheme string
-	ValidityHost  string
-	Date, Expires int64
-	Integrity     string
-	Method        string
+	Version         string
+	URLScheme       string // request URL
+	URLHost         string // host[:port] exactly as written
+	ValidityScheme  string
+	ValidityHost    string
+	Date, Expires   int64
+	Integrity       string
+	Method          string
 	ReqHeaderNames  []string
 	RespHeaderNames []string
-	Status        int
-	CacheControl  string // "" = absent
-	HasExpires    bool
-	HasContentType bool
+	Status          int
+	CacheControl    string // "" = absent
+	HasExpires      bool
+	HasContentType  bool
 }
 
 // From the draft: stateful request header fields, and uncached response header
